@@ -817,7 +817,7 @@ def CASES(tier, seed):
     thorough = tier == 'thorough'
     O = dict(max_paths=60000, max_wall_s=500, validate_paths=2, hard_timeout_s=600, skip_repeated_violation=True, ideal_timeout_ms=20000)
     if thorough:
-        O = dict(max_paths=400000, max_wall_s=1500, validate_paths=2, hard_timeout_s=1700, skip_repeated_violation=True,
+        O = dict(max_paths=400000, max_wall_s=2600, validate_paths=2, hard_timeout_s=2800, skip_repeated_violation=True,
                  ideal_timeout_ms=60000, prove_timeout_ms=120000)
     seen = set()
 
